@@ -44,6 +44,15 @@ func domain(prop, name, desc, tier string, ks []kase, props map[string]bool) *dr
 				c.At(i)
 				k := ks[i]
 				k.cfg.VSeed = c.Seed
+				k.cfg.Own = prop
+				if k.cfg.Symbolic {
+					k.cfg.Follow = 1<<uint(k.cfg.H-2) + 2
+					if k.cfg.Follow > 80 {
+						k.cfg.Follow = 80
+					}
+				} else {
+					k.cfg.Follow = 2
+				}
 				res, sym := run(k)
 				c.Eval(res.Transitions)
 				c.Count("states", res.States)
@@ -68,12 +77,14 @@ func domain(prop, name, desc, tier string, ks []kase, props map[string]bool) *dr
 						c.Fail(i, "C01:trace-real-differs-from-symbolic", map[string]any{"config": k.cfg.String(), "real_events": res.Events, "symbolic_events": sym.Events,
 							"meaning": "the traversal's sequence of leaf/node computations differs between the symbolic model run and the real-hash run"})
 					}
+					c.Count("failures_of_other_properties_ignored", sym.OtherPropFails)
 					for _, f := range sym.Fails {
 						if props[f.Prop] {
 							c.Fail(i, f.Prop+":"+f.Key, f.Details)
 						}
 					}
 				}
+				c.Count("failures_of_other_properties_ignored", res.OtherPropFails)
 				for _, f := range res.Fails {
 					if props[f.Prop] {
 						c.Fail(i, f.Prop+":"+f.Key, f.Details)
